@@ -112,4 +112,9 @@ META = {
         design_ref="DESIGN.md §4 C20",
         note="Only the harnessed scenarios; <= 2 preemptions; over-approximated happens-before edges (may miss, does not invent).",
     ),
+    "C19": dict(
+        text="Bounded model checking of the real ClassifyMsg/OnMsg of both tss-lib adapters against a routing oracle regenerated on every run from the tss-lib constructors: all pairs of message types, every (claimed key, transport sender) pair.",
+        design_ref="DESIGN.md §4 C19",
+        note="protobuf / tss-lib / math/big stubbed; Sign's digest binding read but not encoded.",
+    ),
 }
